@@ -1518,6 +1518,32 @@ func (m *Monitor) expiredID(b *snapshot, chain string, id uint64) bool {
 // ---------------------------------------------------------------- C10
 
 func (m *Monitor) checkC10(g *Gen, w []string, out string, b, a *snapshot) {
+	if len(w) == 3 && w[0] == "import_stamped" && strings.HasPrefix(out, "stamps ") {
+		// sequence numbers after importing a genesis with outstanding transactions: pairwise distinct, all above the imported
+		// counter, and the counter not below any of them (the next outgoing transaction must get a fresh number)
+		f := strings.Fields(strings.Replace(out, "stamps  counter", "stamps - counter", 1))
+		if len(f) == 4 {
+			imported, _ := strconv.ParseUint(w[1], 10, 64)
+			counter, _ := strconv.ParseUint(f[3], 10, 64)
+			seen := map[uint64]bool{}
+			if f[1] != "-" {
+				for _, x := range strings.Split(f[1], ",") {
+					v, _ := strconv.ParseUint(x, 10, 64)
+					if seen[v] {
+						m.report(g, "import:duplicate-sequence", fmt.Sprintf("two imported outgoing transactions carry sequence %d (%s)", v, out))
+					}
+					seen[v] = true
+					if v <= imported {
+						m.report(g, "import:sequence-not-above-counter", fmt.Sprintf("an imported outgoing transaction is stamped %d, not above the imported counter %d (%s)", v, imported, out))
+					}
+					if v > counter {
+						m.report(g, "import:counter-below-stamped-sequence", fmt.Sprintf("the sequence counter after the import is %d although an imported transaction carries %d: the next outgoing transaction re-uses a number (%s)", counter, v, out))
+					}
+				}
+			}
+		}
+		return
+	}
 	for _, c := range g.chains {
 		old := map[string]bool{}
 		for _, x := range b.batches[c] {
